@@ -104,11 +104,14 @@ func (ex *Exec) regKey(name string, s smt.Sort, t types.Type) *HeapKey {
 // heapGet returns the current version of a heap component, creating the
 // base version lazily.
 func (ex *Exec) heapGet(st *State, k *HeapKey) *smt.Term {
-	if t, ok := st.heap[k.Name]; ok {
-		return t
+	t, ok := st.heap[k.Name]
+	if !ok {
+		t = ex.baseHeap(k, st.epoch)
+		st.heap[k.Name] = t
 	}
-	t := ex.baseHeap(k, st.epoch)
-	st.heap[k.Name] = t
+	if ex.readLog != nil {
+		ex.readLog[k.Name] = t
+	}
 	return t
 }
 
